@@ -89,6 +89,9 @@ type Case struct {
 	Modes []string `json:"modes,omitempty"`
 	ErrAt int      `json:"err_at,omitempty"`
 	Dup   bool     `json:"dup,omitempty"`
+	// batch (outcomes error, retry): only process ErrAt ends by itself, its siblings stay inside Run until
+	// their context is cancelled
+	Hold bool `json:"hold,omitempty"`
 	// hist: K sessions with distinct ids run to their end one after the other on ONE coordinator (outcome
 	// pattern Mix), then the Probes (an index below K: the id of that ended session; K + j: the j-th new id)
 	K      int   `json:"k,omitempty"`
@@ -125,6 +128,9 @@ type Obs struct {
 	Ret       string   `json:"ret,omitempty"`
 	LiveAfter int      `json:"live_after,omitempty"`
 	ReuseOK   bool     `json:"reuse_ok,omitempty"`
+	// sess, batch, long: the Broadcast ("S") and CloseSession ("C") calls of the session on the recording
+	// Communication, in ledger order, taken after Execute returned and before the id is started again
+	Led []string `json:"led,omitempty"`
 	// streams
 	SObs []SObs `json:"sobs,omitempty"`
 	// storm
@@ -199,6 +205,32 @@ func (e *env) proc(sid string, coord bool) *tssfakes.RecProcess {
 	p := tssfakes.NewRecProcess(sid, valid, 2)
 	p.Tracker = e.tracker
 	return p
+}
+
+// sessLedger: the Broadcast / CloseSession calls for session sid so far, in the order they were made
+// (the recording Communication writes both to ONE ledger).
+func (e *env) sessLedger(sid string) []string {
+	var out []string
+	for _, ev := range e.led.Snapshot() {
+		if ev.SID != sid {
+			continue
+		}
+		switch ev.Kind {
+		case "Bcast":
+			out = append(out, "S")
+		case "Close":
+			out = append(out, "C")
+		}
+	}
+	return out
+}
+
+func coqLed(l []string) string {
+	out := make([]string, len(l))
+	for i, x := range l {
+		out[i] = map[string]string{"S": "LSend", "C": "LClose"}[x]
+	}
+	return vgen.List(out)
 }
 
 func retClass(err error) string {
@@ -621,6 +653,7 @@ func runSessOnce(c Case, short time.Duration) (Obs, bool) {
 			o.Evs = append(o.Evs, fmt.Sprintf("EStop %d", i))
 		}
 	}
+	o.Led = e.sessLedger(sid)
 	o.ReuseOK = e.reuse(sid)
 	if !pendingKnown {
 		pendingAfter = !o.ReuseOK
@@ -1115,7 +1148,7 @@ func coq(c Case, o Obs) string {
 			evs[i] = e
 		}
 		return "Sess " + role + " " + oc + " " + ph + " " + vgen.Nat(c.NProc) + " " + vgen.List(evs) + " " + ret +
-			" " + vgen.Nat(o.LiveAfter) + " " + vgen.Bool(o.ReuseOK)
+			" " + vgen.Nat(o.LiveAfter) + " " + vgen.Bool(o.ReuseOK) + " " + coqLed(o.Led)
 	case "streams":
 		nx := 0
 		ops := make([]string, len(c.Ops))
@@ -1235,7 +1268,7 @@ func coq(c Case, o Obs) string {
 		}
 		ek := map[string]int{"subset": 0, "comm": 1, "tss": 2, "coordinator": 3}[c.Err]
 		return "Long " + vgen.Nat(ek) + " " + vgen.Bool(c.When == "late") + " " + vgen.Bool(lo.Reached) + " " + vgen.Bool(lo.FirstLive) + " " +
-			vgen.Bool(lo.DupAdmitted) + " " + vgen.Nat(lo.MaxLive) + " " + vgen.Bool(lo.PendAfter) + " " + vgen.Bool(lo.Reuse)
+			vgen.Bool(lo.DupAdmitted) + " " + vgen.Nat(lo.MaxLive) + " " + vgen.Bool(lo.PendAfter) + " " + vgen.Bool(lo.Reuse) + " " + coqLed(o.Led)
 	case "batch":
 		return coqBatch(c, o)
 	case "hist":
